@@ -55,8 +55,17 @@ def gen_plan(seed, tier):
     if fs["kind"] in ("snap", "llc"):
       fs = G.gen_frame(r, rich=False)
     frames.append((fs, r.randint(1, nports)))
+  r7 = Rng(mix(seed, "nosum"))
+  for fs, _ in frames:
+    if fs["kind"] == "udp" and not fs.get("frag") and not fs.get("l4cut") \
+        and r7.chance(0.12):
+      # a datagram sent without a checksum (field 0, RFC 768): forwarding it
+      # does not give it one, and neither does rewriting its addresses
+      fs["nosum"] = True
   r6 = Rng(mix(seed, "pad"))
   for fs, _ in frames:
+    if fs.get("nosum"):
+      continue
     if fs["kind"] == "udp" and not fs.get("frag") and fs["paylen"] >= 2 \
         and not fs.get("l4cut") and r6.chance(0.15):
       fs["zsum"] = True       # checksum computes to 0 -> goes out as 0xffff
